@@ -16,7 +16,7 @@
 
 extern "C" {
 cholmod_dense* __real_cholesky_solve(cholmod_sparse* AtA, cholmod_dense* Atb, cholmod_common* c, int verbose, int n_resolves);
-cholmod_sparse* calc_penalty(uint64_t* nsplines, double* knots, uint32_t ndim, uint32_t i, uint32_t order, uint32_t porder, int mono, cholmod_common* c);
+cholmod_sparse* calc_penalty(uint64_t* nsplines, double* knots, uint32_t ndim, uint32_t i, uint32_t order, uint32_t porder, uint32_t monodim, cholmod_common* c);
 }
 
 static std::string g_tag;
@@ -117,7 +117,7 @@ int main(){
         bases.push_back(b); boxed.push_back(bb);
         // calc_penalty wants the padded knot vector only through knots[j..]; plain copy is enough
         std::vector<double> kn(dims[k].knots);
-        cholmod_sparse* P=calc_penalty(nspl.data(),kn.data(),ndim,k,dims[k].order,dims[k].porder,0,&cc);
+        cholmod_sparse* P=calc_penalty(nspl.data(),kn.data(),ndim,k,dims[k].order,dims[k].porder,PHOTOSPLINE_GLAM_NO_MONODIM,&cc);
         snprintf(tag,sizeof tag,"pen.%u",k); dump_sparse(tag,P,&cc);
         cholmod_l_free_sparse(&P,&cc);
       }
